@@ -21,6 +21,7 @@ from .values import (
     JSBoundMethod,
     to_string,
     to_number,
+    to_integer,
     js_pow,
 )
 from .errors import JSError, MemoryLimitError, TimeLimitError
@@ -601,8 +602,8 @@ class Context:
 
         def imul_fn(*args):
             # 32-bit integer multiplication
-            a = int(to_number(args[0])) if args else 0
-            b = int(to_number(args[1])) if len(args) > 1 else 0
+            a = to_integer(args[0]) if args else 0
+            b = to_integer(args[1]) if len(args) > 1 else 0
             # Convert to 32-bit signed integers
             a = a & 0xFFFFFFFF
             b = b & 0xFFFFFFFF
@@ -626,7 +627,7 @@ class Context:
 
         def clz32_fn(*args):
             # Count leading zeros in 32-bit integer
-            x = int(to_number(args[0])) if args else 0
+            x = to_integer(args[0]) if args else 0
             x = x & 0xFFFFFFFF
             if x == 0:
                 return 32
@@ -789,7 +790,7 @@ class Context:
 
         def parseInt_fn(*args):
             s = to_string(args[0]) if args else ""
-            radix = int(to_number(args[1])) if len(args) > 1 else 10
+            radix = to_integer(args[1]) if len(args) > 1 else 10
             if radix == 0:
                 radix = 10
             s = s.strip()
@@ -876,7 +877,7 @@ class Context:
 
         def fromCharCode_fn(*args):
             """String.fromCharCode - create string from char codes."""
-            return "".join(chr(int(to_number(arg))) for arg in args)
+            return "".join(chr(to_integer(arg)) for arg in args)
 
         string_constructor.set("fromCharCode", fromCharCode_fn)
 
@@ -1129,7 +1130,7 @@ class Context:
     def _global_parseint(self, *args):
         """Global parseInt."""
         s = to_string(args[0]) if args else ""
-        radix = int(to_number(args[1])) if len(args) > 1 else 10
+        radix = to_integer(args[1]) if len(args) > 1 else 10
         if radix == 0:
             radix = 10
         s = s.strip()
